@@ -1,0 +1,87 @@
+//go:build verif
+
+// Verification hooks for package mqtt (build tag "verif"): read-only state dumps in a
+// canonical order and exported wrappers around unexported helpers. Compiled only with
+// -tags verif; nothing here is referenced by the ordinary build.
+
+package mqtt
+
+import (
+	"encoding/hex"
+	"fmt"
+	"sort"
+	"strings"
+
+	"github.com/mochi-mqtt/server/v2/packets"
+)
+
+func verifHex(s string) string {
+	if len(s) == 0 {
+		return "-"
+	}
+	return hex.EncodeToString([]byte(s))
+}
+
+// VerifSubString renders a subscription canonically.
+func VerifSubString(s packets.Subscription) string {
+	b := func(v bool) int {
+		if v {
+			return 1
+		}
+		return 0
+	}
+	return fmt.Sprintf("f=%s,q=%d,nl=%d,rap=%d,rh=%d,id=%d", verifHex(s.Filter), s.Qos, b(s.NoLocal), b(s.RetainAsPublished), s.RetainHandling, s.Identifier)
+}
+
+// VerifIsolateParticle exposes isolateParticle.
+func VerifIsolateParticle(filter string, d int) (string, bool) {
+	return isolateParticle(filter, d)
+}
+
+// VerifTrieDump renders every non-root particle of the topic index, sorted.
+func (x *TopicsIndex) VerifTrieDump() string {
+	var out []string
+	var walk func(n *particle, path []string)
+	walk = func(n *particle, path []string) {
+		for k, c := range n.particles.getAll() {
+			p := append(append([]string{}, path...), verifHex(k))
+			var ss, hs, is []string
+			for cl, s := range c.subscriptions.GetAll() {
+				ss = append(ss, verifHex(cl)+"=("+VerifSubString(s)+")")
+			}
+			for g, m := range c.shared.GetAll() {
+				var ms []string
+				for cl, s := range m {
+					ms = append(ms, verifHex(cl)+"=("+VerifSubString(s)+")")
+				}
+				sort.Strings(ms)
+				hs = append(hs, verifHex(g)+"=["+strings.Join(ms, ",")+"]")
+			}
+			inl := c.inlineSubscriptions.GetAll()
+			ids := make([]int, 0, len(inl))
+			for id := range inl {
+				ids = append(ids, id)
+			}
+			sort.Ints(ids)
+			for _, id := range ids {
+				is = append(is, fmt.Sprintf("%d=(%s)", id, VerifSubString(inl[id].Subscription)))
+			}
+			sort.Strings(ss)
+			sort.Strings(hs)
+			out = append(out, fmt.Sprintf("%s|S(%s)|H(%s)|I(%s)|R%s", strings.Join(p, "/"), strings.Join(ss, ","), strings.Join(hs, ","), strings.Join(is, ","), verifHex(c.retainPath)))
+			walk(c, p)
+		}
+	}
+	walk(x.root, nil)
+	sort.Strings(out)
+	var rs []string
+	for t, pk := range x.Retained.GetAll() {
+		r := 0
+		if pk.FixedHeader.Retain {
+			r = 1
+		}
+		rs = append(rs, fmt.Sprintf("%s=%s:%d", verifHex(t), verifHex(string(pk.Payload)), r))
+	}
+	sort.Strings(rs)
+	return strings.Join(out, " ") + " RET[" + strings.Join(rs, ",") + "]"
+}
